@@ -22,10 +22,13 @@ TECHNIQUE = ("Lean 4 proofs about hand models of the three engine mechanisms (it
              "pending start tag) + differential correspondence of the real XalanTransformer against an independent "
              "executable XSLT 1.0 core specification written in Lean")
 LEVEL_TEXT = ("Machine-checked for all inputs: (1) walker_eq_recursion / walker_restores_stack — for every instruction tree over "
-              "leaf / block / call-template / for-each (any node count) / apply-templates (any sequence of selected templates), any nesting "
+              "leaf / block / call-template / choose / for-each (any node count) / apply-templates (any sequence of selected templates) / use-attribute-sets (any nested sets), any nesting "
               "and call graph, the iterative startElement/endElement/getInvoker/getNextChildElemToExecute loop of ElemTemplateElement::execute "
               "issues exactly the event sequence of the recursive traversal and restores the invoker and node-list stacks; "
-              "(2) variables_lexical / variables_balanced — VariablesStack::findEntry returns the innermost binding of the current template "
+              "(1b) core_refines_spec_partial — the same loop with data (current-node stack, node lists, output through the pending start tag; "
+              "selects / rule choice / branches / strings by an arbitrary oracle of the context) delivers exactly normalize of the recursive "
+              "specification for the fragment value-of / LRE / call-template / choose / for-each / apply-templates; "
+              "(2) variables_lexical(_params) / variables_lookup_pure / variables_balanced — VariablesStack::findEntry returns the innermost binding of the current template "
               "instance, else the global one, whatever the callers' frames hold, and popContextMarker discards a frame whole; "
               "(3) pending_refines_spec / pending_wellformed — for every sequence of engine calls the pending-start-tag protocol of "
               "XSLTEngineImpl delivers a balanced stream with attributes only inside start tags, and exactly the XSLT 7.1.3 tree when "
@@ -33,12 +36,15 @@ LEVEL_TEXT = ("Machine-checked for all inputs: (1) walker_eq_recursion / walker_
               "violates the full statement. The full property (every stylesheet x document yields the Recommendation's tree) is decided by "
               "correspondence only: generated stylesheets x documents run through the real XalanTransformer and through the Lean "
               "specification interpreter (Spec.lean), event lists compared; each mechanism model is tied to the real class by its own op-log run.")
-LEVEL_NOTE = ("Partial: no refinement proof connects the whole of XSLT/*.cpp to Spec.lean; outside the three proved mechanisms the "
+LEVEL_NOTE = ("Partial: the refinement proof to the recursive specification (core_refines_spec_partial) covers a fragment and takes the "
+              "XPath/pattern layer as an oracle (tied to Spec.eval only by the core correspondence stream); no proof connects the whole of "
+              "XSLT/*.cpp to Spec.lean; outside the proved mechanisms the "
               "assurance is differential testing against the Lean specification, bounded by generator coverage (subset: template "
               "rules with match/name/mode/priority, apply-templates, call-template, for-each, sort, value-of, copy, copy-of, element, "
               "attribute, text, comment, processing-instruction, if, choose, variable, param, with-param, literal result elements with "
-              "AVTs, global variables, attribute sets; XPath: 10 axes, node tests, predicates, 30 functions, integer arithmetic; no namespaces, keys, "
-              "xsl:number, imports). Walker model: conditions / node counts / selected templates are parameters of the tree, "
+              "AVTs, global variables, attribute sets, keys, xsl:number (value / level / count), strip-space, import chains + apply-imports; "
+              "XPath: 10 axes, node tests, predicates, 31 functions, integer arithmetic; no namespaces, non-integer numbers, "
+              "xsl:include). Walker model: conditions / node counts / selected templates are parameters of the tree, "
               "the direct-template shortcut is treated as a call; Variables model: values and names are numbers, lazily evaluated "
               "variables not modelled; Pending model: attribute list abstracted to an association list, namespaces/CDATA/HTML switch out of scope. "
               "Trusted: Lean kernel; axioms propext/Classical.choice/Quot.sound only; Spec.lean as a transcription of the Recommendations; "
@@ -49,7 +55,10 @@ DESIGN_REF = "DESIGN.md section 5, C01; design/C01.md"
 THEOREMS = [
     "XalanModel.Props.C01.walker_eq_recursion",
     "XalanModel.Props.C01.walker_restores_stack",
+    "XalanModel.Props.C01.core_refines_spec_partial",
     "XalanModel.Props.C01.variables_lexical",
+    "XalanModel.Props.C01.variables_lexical_params",
+    "XalanModel.Props.C01.variables_lookup_pure",
     "XalanModel.Props.C01.variables_balanced",
     "XalanModel.Props.C01.variables_activation_leak_counterexample",
     "XalanModel.Props.C01.pending_refines_spec",
@@ -231,8 +240,7 @@ def verdict(ir, mr):
 
 # ---- classification of a disagreement by the modelled engine behaviours -------------------------
 
-QUIRKS = [(1, "root-position"), (2, "ns-attribute-leak"), (4, "copyof-empty-string-flush"), (8, "param-activation-leak"),
-          (16, "avt-literal-overwrite")]
+QUIRKS = [(1, "param-activation-leak")]
 
 
 def run_model_only(model, lines):
@@ -247,7 +255,7 @@ def run_model_only(model, lines):
     return res
 
 
-MASKS = sorted(range(1, 32), key=lambda m: (bin(m).count("1"), m))
+MASKS = [1]
 
 
 def explain_many(model, items):
